@@ -338,6 +338,40 @@ func c19histogram(p *core.Prog, res *core.Result, info *types.Info, cc *ast.Case
 		}
 		return inner == nil
 	})
+	// the counting loop may live in a helper: count := countInRange(values, bucket, bucket+interval)
+	subst := map[types.Object]ast.Expr{}
+	if inner == nil {
+		ast.Inspect(outer.Body, func(n ast.Node) bool {
+			c, ok := n.(*ast.CallExpr)
+			if !ok || inner != nil {
+				return true
+			}
+			fn := core.CalleeFunc(info, c)
+			if fn == nil {
+				return true
+			}
+			hfi := p.Info(fn)
+			if hfi == nil || hfi.Decl.Body == nil || hfi.Pkg.TypesInfo != info {
+				return true
+			}
+			var hr *ast.RangeStmt
+			ast.Inspect(hfi.Decl.Body, func(m ast.Node) bool {
+				if rs, ok := m.(*ast.RangeStmt); ok && hr == nil {
+					hr = rs
+				}
+				return hr == nil
+			})
+			if hr == nil {
+				return true
+			}
+			sig := fn.Type().(*types.Signature)
+			for i := 0; i < sig.Params().Len() && i < len(c.Args); i++ {
+				subst[sig.Params().At(i)] = c.Args[i]
+			}
+			inner = hr
+			return true
+		})
+	}
 	if bucket == nil || width == nil || inner == nil || inner.Value == nil {
 		res.Unres("G4", "histogram|loop", p.Pos(outer.Pos()), "bucket/interval/value variables not recognised")
 		return
@@ -348,6 +382,9 @@ func c19histogram(p *core.Prog, res *core.Result, info *types.Info, cc *ast.Case
 		if is, ok := s.(*ast.IfStmt); ok {
 			cond = is.Cond
 		}
+	}
+	if cond != nil && len(subst) > 0 {
+		cond = substExpr(info, cond, subst)
 	}
 	if cond == nil {
 		res.Unres("G4", "histogram|membership", p.Pos(inner.Pos()), "membership test not found")
@@ -556,4 +593,23 @@ func arithEval(info *types.Info, e ast.Expr, vals map[types.Object]float64) (flo
 		}
 	}
 	return 0, false
+}
+
+
+// substExpr copies a comparison expression, replacing identifiers that denote
+// the given objects (parameters of a helper) by the argument expressions.
+func substExpr(info *types.Info, e ast.Expr, m map[types.Object]ast.Expr) ast.Expr {
+	switch x := e.(type) {
+	case *ast.ParenExpr:
+		return &ast.ParenExpr{X: substExpr(info, x.X, m)}
+	case *ast.UnaryExpr:
+		return &ast.UnaryExpr{Op: x.Op, X: substExpr(info, x.X, m)}
+	case *ast.BinaryExpr:
+		return &ast.BinaryExpr{X: substExpr(info, x.X, m), Op: x.Op, Y: substExpr(info, x.Y, m)}
+	case *ast.Ident:
+		if r, ok := m[info.Uses[x]]; ok {
+			return &ast.ParenExpr{X: r}
+		}
+	}
+	return e
 }
